@@ -256,6 +256,13 @@ def lean_obligations(chk, module, theorems, extra_targets=()):
     chk.oblige("audit:no sorry/admit/axiom/native_decide/bv_decide/implemented_by/unsafe in lean sources", not hits, "; ".join(hits[:5]))
     if hits:
         failed.append(("audit", "; ".join(hits[:5])))
+    if chk.tier == "thorough":
+        # independent re-check of the compiled module by the toolchain's stand-alone kernel checker
+        r = run(["lake", "env", "leanchecker", module], cwd=LEAN)
+        okc = r.returncode == 0
+        chk.oblige("leanchecker:" + module, okc, (r.stdout + r.stderr)[-200:])
+        if not okc:
+            failed.append(("leanchecker " + module, (r.stdout + r.stderr)[-400:]))
     ax, raw = print_axioms(module, theorems)
     for t in theorems:
         a = ax.get(t)
